@@ -41,6 +41,8 @@ def gen_table(rng, n=None):
         base = rng.choice(table)[0].upper() if table and rng.random() < 0.4 else None
         pat = gen_pattern(rng, base)
         msg = rng.choice(MSGS)
+        if rng.random() < 0.05:
+            msg = rng.choice(["", "   ", " "])      # an entry without description text is an entry: its description is empty
         k = rng.choice([0, 0, 1, 1, 2, 2, 3, 4, 5])
         params = tuple(rng.choice([1, 2, 3, 4, 1, 2, 3, 4, 0, 5, 9]) for _ in range(k))
         table.append((pat, msg, params))
@@ -185,6 +187,10 @@ def gen_fields(rng, n=None):
         # characters that str.splitlines() (but not line-by-line file reading) treats as line ends, inside a name
         k = rng.randrange(len(out))
         out[k] = (out[k][0][:6] + rng.choice(ODD_SEPARATORS) + out[k][0][6:], out[k][1])
+    if out and rng.random() < 0.15:
+        # names with characters that mean something to C or to a careless scanner - inside the quotes they are name text
+        k = rng.randrange(len(out))
+        out[k] = (out[k][0][:5] + rng.choice(["//", "/*", " // x", "#", "{", "}", ",", ";", "  ", "\\", "%d"]) + out[k][0][5:], out[k][1])
     return out
 
 
